@@ -491,7 +491,7 @@ def validateMapBlocks (p : MapBlocksP) : MBResult :=
 
 inductive Ix where
   | int (i : Int)
-  | slice (negFlip : Bool)      -- any slice (ndindex clips it); flag: negative step selecting ≥ 2 elements (needs a flip)
+  | slice                       -- any slice (ndindex clips it; a negative step becomes a positive one plus a flip)
   | intArray (vals : List Int)
   | boolArray (len : Nat)
   | newaxis
@@ -549,13 +549,8 @@ def validateIndex (shape : List Nat) (key : List Ix) : Res :=
         | .intArray vs => vs.any (fun i => i < -(n : Int) ∨ i ≥ (n : Int))
         | .boolArray len => len ≠ n
         | _ => false)
-      let nInts := (key.filter (fun k => match k with | .int _ => true | _ => false)).length
       if oob then .error .IndexError
       else if nArr ≥ 1 && nAL ≥ 2 then .error .NotImplementedError
-      -- `where_negative_step` holds *input* axis numbers but `flip` is applied to the result, which has lost the
-      -- axes of integer indices: validate_axis refuses when the number is out of range (AxisError)
-      else if pairs.any (fun (k, ax) => match k with | .slice true => ax ≥ shape.length - nInts | _ => false) then
-        .error .IndexError
       else .ok ()
 
 /-! ## scan -/
